@@ -353,7 +353,9 @@ SECONDARY:
 
 END:
 
-	if uncommitted[len(uncommitted)-1].Rune == '-' {
+	if len(uncommitted) == 1 {
+		return "", nil, grammar.R_LANGTAG.Err(r.newOffsetError(cursorioutil.UnexpectedRuneError{Rune: uncommitted[0].Rune}, cursorio.DecodedRunes{}, uncommitted.AsDecodedRunes()))
+	} else if uncommitted[len(uncommitted)-1].Rune == '-' {
 		return "", nil, grammar.R_LANGTAG.Err(r.newOffsetError(
 			cursorioutil.UnexpectedRuneError{
 				Rune: uncommitted[len(uncommitted)-1].Rune,
